@@ -54,7 +54,7 @@ def kkt_predicate(n, m, x, y, d, g, c, eJ, lb, ub, cl, cu, tol_c, tol_s, tol_y, 
 M_BOUND = 2
 
 
-@unit("C01.transfer.slack[bounded m<=2]", ["C01"], ["pygradflow.transform.Transformation.restore_sol", "pygradflow.cons_problem.ConstrainedProblem.cons", "pygradflow.cons_problem.ConstrainedProblem.cons_jac", "pygradflow.cons_problem.ConstrainedProblem.obj_grad", "pygradflow.cons_problem.ConstrainedProblem.restore_sol", SC + "ScaledProblem.cons", SC + "ScaledProblem.obj_grad", "pygradflow.iterate.Iterate.bounds_dual", "pygradflow.active_set.ActiveSet.__init__"], config={"max_paths": 800, "expand_mtv": True})
+@unit("C01.transfer.slack[bounded m<=2]", ["C01"], ["pygradflow.transform.Transformation.restore_sol", "pygradflow.cons_problem.ConstrainedProblem.cons", "pygradflow.cons_problem.ConstrainedProblem.cons_jac", "pygradflow.cons_problem.ConstrainedProblem.obj_grad", "pygradflow.cons_problem.ConstrainedProblem.restore_sol", SC + "ScaledProblem.cons", SC + "ScaledProblem.obj_grad", "pygradflow.iterate.Iterate.bounds_dual", "pygradflow.active_set.ActiveSet.__init__"], config={"max_paths": 800, "expand_mtv": True}, tier="thorough")
 def transfer(u):
     scaled = False  # the scaling layer is unit C01.transfer.scaling (same KKT predicate, composed by transitivity)
     m = u.path.choose_n(M_BOUND + 1, "number of constraints")
@@ -130,7 +130,7 @@ def transfer(u):
     u.cover("end")
 
 
-@unit("C01.transfer.scaling[bounded m<=2]", ["C01"], [SC + "ScaledProblem.obj_grad", SC + "ScaledProblem.cons", SC + "ScaledProblem.__init__", SC + "Scaling.unscale_primal", SC + "Scaling.unscale_dual", SC + "Scaling.unscale_bounds_dual"], config={"max_paths": 100})
+@unit("C01.transfer.scaling[bounded m<=2]", ["C01"], [SC + "ScaledProblem.obj_grad", SC + "ScaledProblem.cons", SC + "ScaledProblem.__init__", SC + "Scaling.unscale_primal", SC + "Scaling.unscale_dual", SC + "Scaling.unscale_bounds_dual"], config={"max_paths": 100}, tier="thorough")
 def transfer_scaling(u):
     """KKT_tol of ScaledProblem(user) at (x_s, y_s, d_s)  =>  KKT of the user's problem at the unscaled point with
     each tolerance multiplied by the corresponding power-of-two scale factor."""
@@ -163,4 +163,147 @@ def transfer_scaling(u):
                           lambda i: tol * P(-cw.f(i)), lambda j: tol * P(vw.f(j) - ow), lambda i: tol * P(cw.f(i) - ow), lambda i: (tol + atol) * P(-cw.f(i)), lambda j: atol * P(-vw.f(j)))
     for label, goal in concl:
         u.ensure(goal, "KKT(user):" + label)
+    u.cover("end")
+
+
+# ----------------------------------------------------------------------------------------------------
+# any number of rows: J^T y stays the (uninterpreted) transposed product of the USER's Jacobian; the block and
+# one-hot structure that the real cons_jac builds is resolved by lemmas LA2 / LA3 (lean/LA.lean)
+
+
+def kkt_predicate_any_m(n, m, x, y, d, g, c, JTy, lb, ub, cl, cu, tol_c, tol_s, tol_y, act_c, act_x):
+    """the same KKT predicate with the rows universally quantified; JTy(j) is (J^T y)_j as a spec-level term"""
+    out = [("variable_bounds_hold_exactly", QAll(n, lambda j: z3.And(lb.f(j) <= x.f(j), x.f(j) <= ub.f(j))))]
+    out.append(("rows:cl-tol<=c<=cu+tol", QAll(m, lambda i: z3.And(cl.f(i) - tol_c(i) <= c.f(i), c.f(i) <= cu.f(i) + tol_c(i)))))
+    out.append(("|g+J^Ty+d|_j<=tol", QAll(n, lambda j: ops.zabs(g.f(j) + JTy(j) + d.f(j)) <= tol_s(j))))
+    out.append(("rows:y>tol=>c_at_upper", QAll(m, lambda i: z3.Implies(z3.And(cl.f(i) < cu.f(i), y.f(i) > tol_y(i)), ops.zabs(c.f(i) - cu.f(i)) <= act_c(i)))))
+    out.append(("rows:y<-tol=>c_at_lower", QAll(m, lambda i: z3.Implies(z3.And(cl.f(i) < cu.f(i), y.f(i) < -tol_y(i)), ops.zabs(c.f(i) - cl.f(i)) <= act_c(i)))))
+    out.append(("d_j>0=>x_j_at_upper", QAll(n, lambda j: z3.Implies(d.f(j) > 0, ops.zabs(ub.f(j) - x.f(j)) <= act_x(j)))))
+    out.append(("d_j<0=>x_j_at_lower", QAll(n, lambda j: z3.Implies(d.f(j) < 0, ops.zabs(x.f(j) - lb.f(j)) <= act_x(j)))))
+    return out
+
+
+@unit("C01.transfer.slack[any m]", ["C01"], ["pygradflow.transform.Transformation.restore_sol", "pygradflow.transform.Transformation.trans_problem", "pygradflow.cons_problem.ConstrainedProblem.cons", "pygradflow.cons_problem.ConstrainedProblem.cons_jac", "pygradflow.cons_problem.ConstrainedProblem.obj_grad", "pygradflow.cons_problem.ConstrainedProblem.restore_sol", "pygradflow.iterate.Iterate.bounds_dual", "pygradflow.active_set.ActiveSet.__init__"], config={"max_paths": 200, "mtv_structural": True})
+def transfer_any_m(u):
+    from .c04_slacks_general import CP, ScatterLoop, mk_cp_general
+
+    params = mk_params(u)
+    u.it.abstract["pygradflow.eval.create_evaluator"] = lambda it, problem, params_: Opaque("evaluator")
+    holder = {}
+
+    def build(user):
+        tr = u.construct("pygradflow.transform.Transformation", user, params)
+        holder["tr"] = tr
+        return tr.fields["trans_problem"]
+
+    user, up, tp, S, n, m, k, ucl, ucu = mk_cp_general(u, build=build)
+    tr = holder["tr"]
+    p = u.path
+    N = n + k
+    tol, atol = params.fields["opt_tol"], params.fields["active_tol"]
+    xi, yi = u.vec("x_int", N), u.vec("y_int", m)
+    xv, yv = V(xi), V(yi)
+    tlb, tub = V(tp.fields["var_lb"]), V(tp.fields["var_ub"])
+    p.add_ufact(UFact(1, lambda j: z3.And(tlb.f(j) <= xv.f(j), xv.f(j) <= tub.f(j)), [(0, N)], "in_box(internal iterate)"))
+    u.it.loop_specs[CP + "cons/loop#0"] = ScatterLoop(u, S, m)
+    c_int = u.method(tp, "cons", xi)
+    g_int = u.method(tp, "obj_grad", xi)
+    J_int = u.method(tp, "cons_jac", xi)
+    itx = u.obj("pygradflow.iterate.Iterate", x=xi, y=yi, params=params, problem=tp, eval=Opaque("evaluator"), obj=u.real("f_int"), obj_grad=g_int, cons=c_int, cons_jac=J_int)
+    d_int = u.get(itx, "bounds_dual")
+    cv, gv, dv = V(c_int), V(g_int), V(d_int)
+    Jty = V(matmodel.mtv(u.it, J_int, yi))
+    # gate facts (Optimal), proved from the real gate in C02._check_terminate
+    p.add_ufact(UFact(1, lambda i: ops.zabs(cv.f(i)) <= tol, [(0, m)], "feasibility(internal)"))
+    p.add_ufact(UFact(1, lambda j: ops.zabs(gv.f(j) + Jty.f(j) + dv.f(j)) <= tol, [(0, N)], "stationarity(internal)"))
+    xr, yr, dr = u.method(tr, "restore_sol", xi, yi, d_int)
+    x, y, d = V(xr), V(yr), V(dr)
+    ulb, uub = V(user.fields["var_lb"]), V(user.fields["var_ub"])
+    for call in up.calls:
+        av = V(call[1])
+        u.ensure(QAll(n, lambda j: av.f(j) == x.f(j)), f"user_{call[0]}_was_evaluated_at_the_returned_x")
+    g_u = up.ret0.get("obj_grad") or V(up.ret["obj_grad"])
+    c_u = up.ret0["cons"]
+    Ju = up.ret["cons_jac"]
+    JTy_user = V(matmodel.mtv(u.it, Ju, yr))
+    one = lambda i: 1
+
+    # every row i is looked at together with its slack (index n + rank(i) of the internal iterate)
+    def with_slack(goal_fn):
+        def g(i):
+            t = S.rank(i)
+            p.index_term(t, k)
+            p.index_term(n + t, N)
+            return goal_fn(i)
+
+        return g
+
+    concl = kkt_predicate_any_m(n, m, x, y, d, g_u, c_u, lambda j: JTy_user.f(j), ulb, uub, ucl, ucu, lambda i: tol, lambda j: tol, lambda i: tol, lambda i: tol + atol, lambda j: atol)
+    for label, goal in concl:
+        if label.startswith("rows:"):
+            goal = QAll(goal.n, with_slack(goal.fn))
+        u.ensure(goal, "KKT(user):" + label)
+    # vacuity: not provable with the multiplier sign convention flipped / without the slack's activity
+    i0 = u.int("i0")
+    p.index_term(i0, m)
+    p.index_term(S.rank(i0), k)
+    p.index_term(n + S.rank(i0), N)
+    u.canary(z3.Implies(z3.And(i0 >= 0, i0 < m, ucl.f(i0) < ucu.f(i0), y.f(i0) > tol), ops.zabs(c_u.f(i0) - ucl.f(i0)) <= tol + atol), "y>tol=>c_at_LOWER_bound")
+    u.canary(z3.Implies(z3.And(i0 >= 0, i0 < m), z3.And(ucl.f(i0) <= c_u.f(i0), c_u.f(i0) <= ucu.f(i0))), "rows_feasible_exactly(tol=0)")
+    u.cover("end")
+
+
+def apply_LA1b(u, Ms, M, r, c, ys, y, a, m, n, label):
+    """lemma LA1b (lean/LA.lean): if Ms[i,j] = r_i * M[i,j] * c_j for all i, j and r_i * ys_i = a * y_i for all i
+    then (Ms^T ys)_j = c_j * a * (M^T y)_j.   The two premises are DISCHARGED here; only then is the conclusion
+    added (for every column j)."""
+    p = u.path
+    eMs, eM = matmodel.entry_fn(u.it, Ms), matmodel.entry_fn(u.it, M)
+    i, j = u.int("la_i"), u.int("la_j")
+    ok1 = u.ensure(z3.Implies(z3.And(i >= 0, i < m, j >= 0, j < n), ops._real(eMs(i, j)) == r(i) * ops._real(eM(i, j)) * c(j)), f"{label}:premise:entries_scaled_by_row_and_column_factors")
+    ok2 = u.ensure(QAll(m, lambda q: r(q) * ys.f(q) == a * y.f(q)), f"{label}:premise:multipliers_scaled_by_the_row_factors")
+    lhs, rhs = V(matmodel.mtv(u.it, Ms, Arr.new(ys))), V(matmodel.mtv(u.it, M, Arr.new(y)))
+    if ok1 is not False and ok2 is not False:
+        p.add_ufact(UFact(1, lambda q: lhs.f(q) == c(q) * a * rhs.f(q), [(0, n)], f"{label}:conclusion"))
+    return lhs, rhs
+
+
+@unit("C01.transfer.scaling[any m]", ["C01"], [SC + "ScaledProblem.obj_grad", SC + "ScaledProblem.cons", SC + "ScaledProblem.__init__", SC + "Scaling.unscale_primal", SC + "Scaling.unscale_dual", SC + "Scaling.unscale_bounds_dual"], config={"max_paths": 100})
+def transfer_scaling_any_m(u):
+    """KKT_tol of ScaledProblem(user) at (x_s, y_s, d_s)  =>  KKT of the user's problem at the unscaled point with
+    each tolerance multiplied by the corresponding power-of-two scale factor; ANY number of rows: the transposed
+    products stay uninterpreted and are related by lemma LA1b."""
+    user = mk_problem(u, name="user")
+    n, m = user.fields["__n__"], user.fields["num_cons"]
+    up = UserProblem(u, user)
+    params = mk_params(u)
+    tol, atol = params.fields["opt_tol"], params.fields["active_tol"]
+    P = lambda e: pow2_at(u.it, e)
+    sc, vw_a, cw_a, ow = mk_scaling(u, n, m)
+    vw, cw = V(vw_a), V(cw_a)
+    sp = u.construct(SC + "ScaledProblem", user, sc)
+    xs, ys, ds = u.vec("x_s", n), u.vec("y_s", m), u.vec("d_s", n)
+    g_s = V(u.method(sp, "obj_grad", xs))
+    c_s = V(u.method(sp, "cons", xs))
+    Ju = Mat(m, n, None, name="J_user")
+    eJu = matmodel.entry_fn(u.it, Ju)
+    # entrywise contract of ScaledProblem.cons_jac (proved triplet-wise in C04.ScaledProblem.cons_jac[*])
+    Js = Mat(m, n, lambda i, j: P(cw.f(i)) * ops._real(eJu(i, j)) * P(-vw.f(j)), name="J_scaled")
+    x, y, d = V(u.method(sc, "unscale_primal", xs)), V(u.method(sc, "unscale_dual", ys)), V(u.method(sc, "unscale_bounds_dual", ds))
+    JTy_s, JTy_u = apply_LA1b(u, Js, Ju, lambda i: P(cw.f(i)), lambda j: P(-vw.f(j)), V(ys), y, P(ow), m, n, "LA1b")
+    hyp = kkt_predicate_any_m(n, m, V(xs), V(ys), V(ds), g_s, c_s, lambda j: JTy_s.f(j), V(sp.fields["var_lb"]), V(sp.fields["var_ub"]), V(sp.fields["cons_lb"]), V(sp.fields["cons_ub"]),
+                              lambda i: tol, lambda j: tol, lambda i: tol, lambda i: tol + atol, lambda j: atol)
+    for label, h in hyp:
+        u.path.add_ufact(UFact(1, h.fn, [(0, h.n)], "KKT(scaled):" + label))
+    g_u = up.ret0.get("obj_grad") or V(up.ret["obj_grad"])
+    c_u = up.ret0["cons"]
+    for call in up.calls:
+        av = V(call[1])
+        u.ensure(QAll(n, lambda j: av.f(j) == x.f(j)), f"user_{call[0]}_was_evaluated_at_the_unscaled_x")
+    concl = kkt_predicate_any_m(n, m, x, y, d, g_u, c_u, lambda j: JTy_u.f(j), V(user.fields["var_lb"]), V(user.fields["var_ub"]), V(user.fields["cons_lb"]), V(user.fields["cons_ub"]),
+                                lambda i: tol * P(-cw.f(i)), lambda j: tol * P(vw.f(j) - ow), lambda i: tol * P(cw.f(i) - ow), lambda i: (tol + atol) * P(-cw.f(i)), lambda j: atol * P(-vw.f(j)))
+    for label, goal in concl:
+        u.ensure(goal, "KKT(user):" + label)
+    j0 = u.int("j0")
+    u.canary(z3.Implies(z3.And(j0 >= 0, j0 < n), ops.zabs(g_u.f(j0) + JTy_u.f(j0) + d.f(j0)) <= tol), "stationarity_with_the_unscaled_tolerance")
     u.cover("end")
